@@ -1024,10 +1024,27 @@ func (v verifMiddleware) Handle(m *mail.Msg) *mail.Msg {
 	return m
 }
 
+// hdrMiddleware sets one generic header field (idempotent); two of them with different types make the pair whose first
+// member WriteToSkipMiddleware skips.
+type hdrMiddleware struct{ typ, name string }
+
+func (h hdrMiddleware) Type() mail.MiddlewareType { return mail.MiddlewareType(h.typ) }
+
+func (h hdrMiddleware) Handle(m *mail.Msg) *mail.Msg {
+	m.SetGenHeader(mail.Header(h.name), "on")
+	return m
+}
+
+const mwaLine = "X-Verif-Mwa: on\r\n"
+
 // attachMiddleware returns a copy of the message options with the middleware installed: a Msg takes middlewares
 // only at construction, so the message is rebuilt around the same content.
 func attachMiddleware(m *mail.Msg, kind string) *mail.Msg {
-	n := mail.NewMsg(mail.WithMiddleware(verifMiddleware{kind}), mail.WithEncoding(mail.Encoding(m.Encoding())))
+	mws := []mail.MsgOption{mail.WithMiddleware(verifMiddleware{kind})}
+	if kind == "pair" {
+		mws = []mail.MsgOption{mail.WithMiddleware(hdrMiddleware{"verif-a", "X-Verif-Mwa"}), mail.WithMiddleware(hdrMiddleware{"verif-b", "X-Verif-Mwb"})}
+	}
+	n := mail.NewMsg(append(mws, mail.WithEncoding(mail.Encoding(m.Encoding())))...)
 	_ = n.From("sender@from.test")
 	_ = n.To("rcpt@to.test")
 	n.SetDateWithValue(time.Date(2024, 5, 17, 10, 11, 12, 0, time.UTC))
@@ -1488,8 +1505,13 @@ func (rn *Runner) Run() {
 		calls [][]int
 	}
 	var distinct []rendering
+	mwaApplied := false
 	var reader *mail.Reader
 	for k, op := range ops {
+		wasApplied := mwaApplied // (every render applies the middlewares before anything is written, a failing one too)
+		if op != "SkipMw" && op != "BreakSrc" && op != "FixSrc" {
+			mwaApplied = true
+		}
 		var out bytes.Buffer
 		var n int64
 		var oerr error
@@ -1548,7 +1570,11 @@ func (rn *Runner) Run() {
 			_ = os.Remove(path)
 			n = int64(out.Len())
 		case "SkipMw": // the render path that skips one middleware type
-			guard(func() { n, oerr = built.Msg.WriteToSkipMiddleware(&out, "no-such-middleware") })
+			skip := mail.MiddlewareType("no-such-middleware")
+			if sc.Prog.Mw == "pair" { // the first of the two middlewares is left out of this one render
+				skip = "verif-a"
+			}
+			guard(func() { n, oerr = built.Msg.WriteToSkipMiddleware(&out, skip) })
 		case "Sendmail": // a local sendmail binary: here a script that stores what it reads
 			script, spool, serr := sendmailScript(rn.TmpDir)
 			if serr != nil {
@@ -1657,6 +1683,13 @@ func (rn *Runner) Run() {
 				if e := mimeread.Parse(same); e.Multi == "signed" && len(e.Children) >= 1 {
 					same = e.Children[0].Raw
 				}
+			}
+			if sc.Prog.Mw == "pair" {
+				// the field of the first middleware is missing exactly in a render that skipped it before any other render
+				// applied it; the renders are compared without that line, a wrong presence makes the output a different one
+				has := bytes.Contains(out.Bytes(), []byte("\r\n"+mwaLine))
+				want := op != "SkipMw" || wasApplied
+				same = append(bytes.Replace(append([]byte{}, same...), []byte(mwaLine), nil, 1), []byte(fmt.Sprintf("\nfirst middleware as expected: %v\n", has == want))...)
 			}
 			id = hashID(ids, same)
 			if (len(ids) > before || built.Smime.Key != "") && len(distinct) < 3 {
